@@ -446,6 +446,8 @@ def run(ctx):
     effects.check_property(ctx, "C05")    # R05.E: no operation on shared protocol state outside the reviewed table
     r11_no_header_only_padding(ctx)
     r12_close_writes_nothing(ctx)
+    from . import C04 as _C04s
+    _C04s.r2_size_conversions(ctx)     # a scheme's numbers reach the shaping loop clamped to what a record can be, never dropped: an entry that vanishes leaves its packet unshaped
     from . import C19 as _C19
     _C19.r4_r5_client_adopts(ctx)    # a session changes scheme exactly when a push parsed: never on a rejected one
     _C19.r1_replaceable(ctx)     # the scheme shaping new sessions is the one pushed last (no early-out that leaves an older one in force)
